@@ -220,3 +220,34 @@ def _dominating_identical_call(ctx, f: FuncInfo, cfg_f: CFG, at: Node, call_expr
                 if args == want_args or (guard is not None and h is guard and args <= want_args):
                     return True
     return False
+
+
+def controlling_conditions(cfg: CFG, node: Node) -> list:
+    """Atomic conditions known to decide whether `node` is reached, normalised:
+    [(expr, truth, test node)] with leading `not` stripped (truth flipped), a true
+    conjunction split into its conjuncts and a false disjunction into its disjuncts."""
+    out = []
+
+    def add(expr, truth, t):
+        while isinstance(expr, ast.UnaryOp) and isinstance(expr.op, ast.Not):
+            expr, truth = expr.operand, not truth
+        if isinstance(expr, ast.BoolOp) and isinstance(expr.op, ast.And) and truth:
+            for v in expr.values:
+                add(v, True, t)
+            return
+        if isinstance(expr, ast.BoolOp) and isinstance(expr.op, ast.Or) and not truth:
+            for v in expr.values:
+                add(v, False, t)
+            return
+        if isinstance(expr, ast.Compare) and len(expr.ops) == 1:
+            neg = {ast.NotEq: ast.Eq, ast.IsNot: ast.Is, ast.NotIn: ast.In}
+            for k, v in neg.items():
+                if isinstance(expr.ops[0], k):
+                    expr = ast.Compare(left=expr.left, ops=[v()], comparators=expr.comparators)
+                    truth = not truth
+                    break
+        out.append((expr, truth, t))
+
+    for t, lab in controlling_tests(cfg, node):
+        add(t.ast, lab == "t", t)
+    return out
